@@ -116,4 +116,5 @@ package baseorbitdb
 //@   ensures !addrValid(dbAddress) && cr && !st ==> result1 != nil && storesCreated(o) == S0
 //@   ensures addrValid(dbAddress) && lo && !old(dsHas(cacheFor(o.cache, dir, addrStr(parsedAddr(dbAddress))))[mkey(parsedAddr(dbAddress))]) ==> result1 != nil && storesCreated(o) == S0
 //@   assert @ before call o.createStore#1: lo ==> haveDB
+//@   assert @ before call o.createStore#1: options.AccessControllerAddress == manifest.AccessController
 //@   modifies *
